@@ -4,6 +4,7 @@ import hashlib
 import os.path
 import inspect
 from importlib.machinery import SourceFileLoader
+from importlib.util import cache_from_source
 
 
 class CodeGenerator:
@@ -168,7 +169,9 @@ def unpack_impl(pkt, raw, offset, **k):
             if module and hasattr(module, '__cached__'):
                 module_compiled_filename = module.__cached__
             else:
-                module_compiled_filename = module_name + ".pyc"
+                # no module was loaded (no source file or a broken one), but
+                # a compiled file of an earlier definition may still be there
+                module_compiled_filename = cache_from_source(module_pathname)
 
             if os.path.exists(module_compiled_filename):
                 os.remove(module_compiled_filename)
